@@ -283,58 +283,93 @@ class CoopLock:
         self._shadow = None
 
 
-class CoopRLock:
+class _RState:
+    __slots__ = ("block", "owner", "count")
+
     def __init__(self):
-        self._block = CoopLock()
-        self._owner = None
-        self._count = 0
+        self.block = CoopLock()
+        self.owner = None
+        self.count = 0
+
+
+class CoopRLock:
+    """re-entrant lock on top of CoopLock.  Inside a probe (a restarted process) a fresh per-probe state
+    is used, so ownership recorded in the main universe is neither seen nor disturbed."""
+
+    def __init__(self):
+        self._main = _RState()
+        self._shadow = None
+
+    def _st(self):
+        sim = CURRENT
+        if sim is not None and sim.in_probe:
+            sh = self._shadow
+            if sh is None or sh[0] != sim.probe_gen:
+                sh = self._shadow = (sim.probe_gen, _RState())
+                # the shadow state's own CoopLock must not shadow again: use its real lock directly
+            return sh[1], True
+        return self._main, False
 
     def acquire(self, blocking=True, timeout=-1):
+        st, shadow = self._st()
         me = _thread.get_ident()
-        if self._owner == me:
-            self._count += 1
+        if st.owner == me:
+            st.count += 1
             return True
-        rc = self._block.acquire(blocking, timeout)
+        rc = st.block._l.acquire(blocking, timeout) if shadow else st.block.acquire(blocking, timeout)
         if rc:
-            self._owner = me
-            self._count = 1
+            st.owner = me
+            st.count = 1
         return rc
 
     __enter__ = acquire
 
     def release(self):
-        if self._owner != _thread.get_ident():
+        st, shadow = self._st()
+        if st.owner != _thread.get_ident():
             raise RuntimeError("cannot release un-acquired lock")
-        self._count -= 1
-        if not self._count:
-            self._owner = None
-            self._block.release()
+        st.count -= 1
+        if not st.count:
+            st.owner = None
+            if shadow:
+                st.block._l.release()
+            else:
+                st.block.release()
 
     def __exit__(self, *a):
         self.release()
 
     def locked(self):
-        return self._block.locked()
+        st, shadow = self._st()
+        return st.block._l.locked()
 
     def _at_fork_reinit(self):
-        self._block._at_fork_reinit()
-        self._owner = None
-        self._count = 0
+        self._main = _RState()
+        self._shadow = None
 
     # condition-variable support (threading.Condition uses these if present)
     def _is_owned(self):
-        return self._owner == _thread.get_ident()
+        st, _ = self._st()
+        return st.owner == _thread.get_ident()
 
     def _release_save(self):
-        count, owner = self._count, self._owner
-        self._count = 0
-        self._owner = None
-        self._block.release()
+        st, shadow = self._st()
+        count, owner = st.count, st.owner
+        st.count = 0
+        st.owner = None
+        if shadow:
+            st.block._l.release()
+        else:
+            st.block.release()
         return (count, owner)
 
     def _acquire_restore(self, state):
-        self._block.acquire()
-        self._count, self._owner = state
+        st, shadow = self._st()
+        if shadow:
+            st.block._l.acquire()
+        else:
+            st.block.acquire()
+        st.count, st.owner = state
 
 
 def install_coop_locks():
